@@ -476,12 +476,19 @@ where
     let mut torn = false;
     match cfg.mode {
         Mode::Seq => {
+            sched::SEQ_STUCK.store(false, Ordering::Relaxed);
+            sched::SEQ_GUARD.store(true, Ordering::Relaxed);
             for (t, s) in cfg.scripts.iter().enumerate() {
                 let mut ctx = Ctx::new(t, info);
-                let (_, o) = run_script(&it, s, &mut ctx);
+                let (alive, o) = run_script(&it, s, &mut ctx);
                 overrun |= o;
                 logs.push(ctx.recs);
+                if !alive {
+                    break;
+                }
             }
+            sched::SEQ_GUARD.store(false, Ordering::Relaxed);
+            torn = sched::SEQ_STUCK.load(Ordering::Relaxed);
         }
         Mode::Sched => {
             let s = Sched::new(n, cfg.policy.clone(), cfg.sched_seed, cfg.freeze);
@@ -626,6 +633,7 @@ where
         finish_panic,
         sched: sched_report.as_ref(),
         frozen: cfg.freeze.is_some(),
+        seq_stuck: cfg.mode == Mode::Seq && torn,
     };
     let tmc = std::time::Instant::now();
     let (violations, stats) = rules::check(&hist);
